@@ -618,6 +618,11 @@ class StrategyBase(Node):
 
             # must create to avoid pandas warning
             funiverse = pd.DataFrame(funiverse)
+        elif self._has_strat_children:
+            # constructed without children, sub-strategies attached with
+            # parent=: full universe plus their columns
+            for c in self._strat_children:
+                funiverse[c] = np.nan
 
         self._universe = funiverse
         # holds filtered universe
